@@ -3,7 +3,7 @@
 From Coq Require Import String.
 From Coq Require Import List Arith Bool ZArith NArith.
 Import ListNotations.
-From YP Require Import Base.Str Term.Term Term.Show Term.Fast Unify.Unify Unify.Fast Lang.Ast Lang.Front Comp.IR Comp.CompileClause Sem.Machine Sem.Sld Sem.SldR.
+From YP Require Import Base.Str Term.Term Term.Show Term.Fast Unify.Unify Unify.Fast Lang.Ast Lang.Front Comp.IR Comp.CompileClause Comp.Limits Sem.Machine Sem.Sld Sem.SldR.
 Local Open Scope string_scope.
 Local Open Scope list_scope.
 
@@ -50,5 +50,26 @@ Definition run_three (depth : nat) (p : program) (qs : list (str * list term * n
 Definition run_three_src (depth : nat) (src : str) (qs : list (str * list term * nat)) (limit : nat) : obs :=
   match front src with
   | Some p => run_three depth p qs limit
+  | None => otag "front-rejects" []
+  end.
+
+(* round 4: the same with the compiler's verdict "program too large for Python" (D13; Comp/Limits.v: more than 20 statically
+   nested blocks in an emitted function).  The harness compares accept / refuse with the implementation: a compiler that
+   accepts a body the model refuses (or the other way round) differs, whatever code it emits. *)
+Definition within_limits (p : program) : bool :=
+  match compile_program p with
+  | Some ir => py_limits ir
+  | None => true
+  end.
+
+Definition run_both_src_lim (depth : nat) (src : str) (qs : list (str * list term * nat)) (limit : nat) : obs :=
+  match front src with
+  | Some p => if within_limits p then run_both depth p qs limit else otag "too-large" []
+  | None => otag "front-rejects" []
+  end.
+
+Definition run_three_src_lim (depth : nat) (src : str) (qs : list (str * list term * nat)) (limit : nat) : obs :=
+  match front src with
+  | Some p => if within_limits p then run_three depth p qs limit else otag "too-large" []
   | None => otag "front-rejects" []
   end.
